@@ -260,3 +260,37 @@ func allGroups() []*grp {
 	add("bls-gnark", gnark.NewSuite(), nil, nil, rBLS, true)
 	return gs
 }
+
+var pBLS, _ = new(big.Int).SetString("1a0111ea397fe69a4b1ba7b6434bacd764774b84f38512bf6730d2a0f6b0f6241eabfffeb153ffffb9feffffffffaaab", 16)
+
+// offSubgroupBLSG1 returns encodings (compressed, 48 bytes; uncompressed, 96 bytes) of points that ARE
+// on the BLS12-381 curve y^2 = x^3 + 4 but (with probability 1 - 2^-125) outside the prime-order
+// subgroup G1: small x coordinates, y by square root (p = 3 mod 4). Format: the zcash serialisation
+// (bit 7 compressed, bit 6 infinity, bit 5 sign of y).
+func offSubgroupBLSG1(k int) (compressed, uncompressed []byte) {
+	e := new(big.Int).Rsh(new(big.Int).Add(pBLS, big.NewInt(1)), 2)
+	found := 0
+	for x := int64(1); x < 200; x++ {
+		X := big.NewInt(x)
+		rhs := new(big.Int).Exp(X, big.NewInt(3), pBLS)
+		rhs.Add(rhs, big.NewInt(4)).Mod(rhs, pBLS)
+		y := new(big.Int).Exp(rhs, e, pBLS)
+		if new(big.Int).Exp(y, big.NewInt(2), pBLS).Cmp(rhs) != 0 {
+			continue
+		}
+		if found < k {
+			found++
+			continue
+		}
+		xb, yb := X.FillBytes(make([]byte, 48)), y.FillBytes(make([]byte, 48))
+		uncompressed = append(append([]byte{}, xb...), yb...)
+		compressed = append([]byte{}, xb...)
+		compressed[0] |= 0x80
+		half := new(big.Int).Rsh(pBLS, 1)
+		if y.Cmp(half) > 0 {
+			compressed[0] |= 0x20
+		}
+		return
+	}
+	return nil, nil
+}
